@@ -435,6 +435,17 @@ def r5(ctx):
               key="cancel-in-flight")
     mut = [mir.short(tm[1]) for bi, t, tm in b.real_calls() if common.mutates_self(b, t, tm)]
     ctx.check("Orders::record_in_flight_cancel", set(mut) <= {"HashMap::get_mut"}, "no other mutation", got=mut, key="no-other")
+    # the batch forms (what the Engine calls with `&output.sent`): every request of the batch reaches the single-request recorder
+    for many, one in (("record_in_flight_cancels", "record_in_flight_cancel"), ("record_in_flight_opens", "record_in_flight_open")):
+        ds = [d for d in ctx.find(name=many, trait=IFR, allow_many=True)]
+        okall = bool(ds)
+        got = []
+        for d in ds:
+            vs = common.elementwise_views(ctx, d)
+            got.append([(v["source"], v["calls"]) for v in vs])
+            okall = okall and len(vs) == 1 and vs[0]["complete"] and vs[0]["source"] == "requests" and \
+                [c for c in vs[0]["calls"]] == [("InFlightRequestRecorder::%s(self, $x)" % one, "true")]
+        ctx.check("InFlightRequestRecorder::" + many, okall, "every sent request of the batch is recorded, one by one", got=got, key="each")
 
 
 def r6(ctx):
